@@ -265,7 +265,8 @@ CHECKS = {
         quick=dict(shards=16, checks=1500, timeout=900),
         thorough=dict(shards=16, checks=32000, timeout=5400),
         technique="property-based testing (rapid) with a scripted packet producer as the clock; reference demultiplexer as oracle",
-        rule="rapid-generated group layouts (1-4 groups arriving in arbitrary order over 1-4 producers, 1-8 channels each, 1-D or 2-D shape, "
+        rule="(in a quarter of the cases the producers are real AbacoRings reading real shared-memory ring buffers that the harness fills slot by slot, as the DMA does) "
+             "rapid-generated group layouts (1-4 groups arriving in arbitrary order over 1-4 producers, 1-8 channels each, 1-D or 2-D shape, "
              "int16 or int32 payload, per-group sequence base up to 2^31, 1-16 frames per packet), a sampling phase of 2-6 packets per group "
              "(later ones possibly lost), and a tick script of 1-12 read ticks: per tick and group 0-8 further packet positions arrive "
              "(empty ticks, one group lagging the others), with none / one / a run of / scattered lost positions per group; packets pass "
